@@ -84,6 +84,16 @@ func runVariantCatalogue(spec *PropSpec, repo, verif string) interface{} {
 	}
 	// confirmed seeds for this property
 	seedDirs, _ := filepath.Glob(filepath.Join(verif, "seeded", spec.ID+"-*"))
+	// mechanical mutants that survive the test suite and were confirmed property-breaking (seeded/M<n>): by meta.json
+	mDirs, _ := filepath.Glob(filepath.Join(verif, "seeded", "M*"))
+	for _, md := range mDirs {
+		var meta struct {
+			Property string `json:"property"`
+		}
+		if b, err := os.ReadFile(filepath.Join(md, "meta.json")); err == nil && json.Unmarshal(b, &meta) == nil && meta.Property == spec.ID {
+			seedDirs = append(seedDirs, md)
+		}
+	}
 	sort.Strings(seedDirs)
 	for _, sd := range seedDirs {
 		sd := sd
